@@ -6,7 +6,7 @@
 (* reaches Depth.  Reads are added by the driver ("probe" after each step). *)
 EXTENDS Mailstore, TLC, Json
 
-CONSTANTS Sizes, Metas, Depth, WithReopen, WithScan, WithSeen, GenCap, GenLimit
+CONSTANTS Sizes, Metas, Depth, ReopenCaps, Ops, GenCap, GenLimit
 VARIABLES hist
 gvars == <<boxes, used, arrival, cap, limit, hist>>
 
@@ -19,14 +19,14 @@ Rec(op, m, id, meta, size) == [op |-> op, mb |-> m, id |-> id, meta |-> meta, si
 
 GNext ==
     /\ Len(hist) < Depth
-    /\ \/ \E m \in Mailbox, meta \in Metas, size \in Sizes :
+    /\ \/ \E m \in Mailbox, meta \in Metas, size \in Sizes : "add" \in Ops /\
             Add(m, NextId(m), meta, size) /\ hist' = Append(hist, Rec("add", m, 0, meta, size))
        \/ \E m \in Mailbox : \E id \in IdRefs(m) :
-            \/ WithSeen /\ MarkSeen(m, id) /\ hist' = Append(hist, Rec("seen", m, id, 0, 0))
-            \/ RemoveMsg(m, id) /\ hist' = Append(hist, Rec("remove", m, id, 0, 0))
-       \/ \E m \in Mailbox : Purge(m) /\ hist' = Append(hist, Rec("purge", m, 0, 0, 0))
-       \/ WithScan /\ Scan(LAMBDA meta : meta = 0) /\ hist' = Append(hist, Rec("scan", 0, 0, 0, 0))
-       \/ WithReopen /\ UNCHANGED svars /\ hist' = Append(hist, Rec("reopen", 0, 0, 0, 0))
+            \/ "seen" \in Ops /\ MarkSeen(m, id) /\ hist' = Append(hist, Rec("seen", m, id, 0, 0))
+            \/ "remove" \in Ops /\ RemoveMsg(m, id) /\ hist' = Append(hist, Rec("remove", m, id, 0, 0))
+       \/ \E m \in Mailbox : "purge" \in Ops /\ Purge(m) /\ hist' = Append(hist, Rec("purge", m, 0, 0, 0))
+       \/ "scan" \in Ops /\ Scan(LAMBDA meta : meta = 0) /\ hist' = Append(hist, Rec("scan", 0, 0, 0, 0))
+       \/ \E c \in ReopenCaps : Reopen(c) /\ hist' = Append(hist, Rec("reopen", 0, c, 0, 0))
 
 GSpec == GInit /\ [][GNext]_gvars
 
